@@ -525,6 +525,15 @@ static int pick_highest_prio(int except) {
     if (i != except && T[i].state == TS_READY && (best < 0 || T[i].prio > T[best].prio)) best = i;
   return best;
 }
+// fair choice for a task that cannot proceed: the next ready task after it, cyclically (so that the holder of the
+// primitive it waits for is reached whatever the priorities are)
+static int pick_round_robin(int self) {
+  for (int k = 1; k <= NT; ++k) {
+    int i = (self + k) % NT;
+    if (i != self && T[i].state == TS_READY) return i;
+  }
+  return -1;
+}
 static int pick_lowest_index(int except) {
   for (int i = 0; i < NT; ++i)
     if (i != except && T[i].state == TS_READY) return i;
@@ -579,7 +588,7 @@ static void yield_point(int kind, uint64_t site, int window) {
   int next = -1;
   switch (g_cfg.policy) {
     case SIM_POL_SERIAL:
-      if (kind == K_BLOCKED) next = pick_lowest_index(self);
+      if (kind == K_BLOCKED) next = pick_round_robin(self);
       break;
     case SIM_POL_RANDOM: {
       uint64_t r = sm64(&g_rng);
@@ -596,7 +605,8 @@ static void yield_point(int kind, uint64_t site, int window) {
         if (g_pct_points[i] == g_st.steps) T[self].prio = g_cfg.pct_depth - i;  // below all initial priorities
       if (window && (sm64(&g_rng) >> 32) % 100 < g_cfg.window_pct) T[self].prio = 0;
       if (kind == K_BLOCKED) {
-        next = pick_highest_prio(self);
+        T[self].prio = 0;  // a waiting task must not starve the holder (priority inversion)
+        next = pick_round_robin(self);
       } else {
         int best = pick_highest_prio(-1);
         if (best != self) next = best;
@@ -606,7 +616,7 @@ static void yield_point(int kind, uint64_t site, int window) {
     case SIM_POL_REPLAY: {
       int r = replay_lookup(self);
       if (r >= 0) next = r;
-      if (kind == K_BLOCKED && next < 0) next = pick_lowest_index(self);
+      if (kind == K_BLOCKED && next < 0) next = pick_round_robin(self);
       break;
     }
   }
